@@ -20,6 +20,21 @@ CHECKS = {
   note="bounded: <=4 nodes (84 278 canonical stores, 47 M comparisons); larger random graphs are sampling and not done",
   tech="bounded-exhaustive enumeration of entity graphs against a reachability model, with a step-bounded environment callback as non-termination detector",
   ref="DESIGN.md §5 C03"),
+ "C04": dict(
+  text="differential bounded-exhaustive enumeration: every operator form over 37 leaves (constants of every type, erroring constant sub-expressions, entity literals present in some stores only, variables), all depth-2 pairings and depth-3 short-circuit forms, in 4 clause placements; each policy classified satisfied/unsatisfied/erroring through the folded path (cedar.Authorize) and the unfolded path (eval.Eval(PolicyToNode(AST))) in 6 environments; AST (DeepEqual), Cedar text and JSON compared before/after compilation",
+  note="bounded: depth <=2 (3 for short-circuit forms); the unfolded evaluator is the reference (its own conformance is C01)",
+  tech="bounded-exhaustive differential enumeration (folded vs unfolded evaluation) over small-scope policies x environments",
+  ref="DESIGN.md §5 C04"),
+ "C05": dict(
+  text="bounded-exhaustive enumeration of policy sets x request templates (variables in any of the four parts, same variable at several keys / inside sets and nested records, two variables) x every value list of length 0..2 (3 in thorough) over 3-value universes, and for every run every position k at which the callback fails or the context is cancelled; callbacks compared with the Cartesian product as a multiset, Result.Request with the reference substitution, decision and reasons with cedar.Authorize on the concrete request",
+  note="bounded: policy sets of <=1 policy with all value lists + all pairs with two value-list patterns (quick), <=3 policies (thorough); 10 context shapes; cedar.Authorize is the reference",
+  tech="bounded-exhaustive enumeration of templates x value lists x fault positions (deviation bound 1: one injected callback error / cancellation per run) against brute-force authorization",
+  ref="DESIGN.md §5 C05"),
+ "C06": dict(
+  text="bounded-exhaustive enumeration of policies (scope-form pairs; every operator form over 14 leaves in 4 policy shapes; depth-2 and depth-3 structural parents) x 19 partial environments (unknown principal/action/resource/context, unknowns nested in context records and sets, same unknown twice, ignored parts) x every completion from universes hitting both branches; kept => residual satisfied iff original, dropped => original never satisfied, ignored (permit) => original satisfied implies kept and residual satisfied",
+  note="bounded: depth <=2 (+ depth-3 if-value forms), <=4 unknowns, completion universes of 2-7 values; satisfaction judged by x/exp/eval.Eval (conformance is C01); forbid under ignore not constrained by the property",
+  tech="bounded-exhaustive enumeration of policies x partial environments x completions with a soundness oracle (original vs residual under each completion)",
+  ref="DESIGN.md §5 C06"),
  "C20": dict(
   text="explicit-state BFS over all container operation histories up to the stated depth from 14 initial states, every transition executed on the real PolicySet and compared with a Go-map model and the authorization decision table",
   note="bounded: ids {a, policy1, policy10, policy2}+loaded ids, 5 policy kinds, depth 4 (quick) / 6 (thorough); model = plain Go map",
